@@ -45,6 +45,7 @@ type c14Item struct {
 	Slot  int    `json:"slot"`            // 16-byte slot of the search area
 	Off   int    `json:"off,omitempty"`   // 0: on the boundary; 1..15: misplaced copy (not a root pointer)
 	Rev   uint8  `json:"rev"`             // revision byte: 0 = 20-byte structure, otherwise 36-byte structure
+	NoSig int    `json:"nosig,omitempty"` // 1..8: that byte of the signature is wrong (not a root pointer at all)
 	Valid bool   `json:"valid,omitempty"` // all checksums of the structure are right
 	Bad20 uint8  `json:"bad20,omitempty"` // decoy: error of the 20-byte checksum (non-zero)
 	Bad36 uint8  `json:"bad36,omitempty"` // decoy, rev != 0: error of the 36-byte checksum (non-zero)
@@ -102,7 +103,7 @@ type c14Case struct {
 func (c *c14Case) winner() int {
 	best := -1
 	for i, it := range c.Items {
-		if it.Valid && it.Off == 0 && (best < 0 || it.Slot < c.Items[best].Slot) {
+		if it.Valid && it.Off == 0 && it.NoSig == 0 && (best < 0 || it.Slot < c.Items[best].Slot) {
 			best = i
 		}
 	}
@@ -545,6 +546,12 @@ func c14Build(c *c14Case) (*c14Env, error) {
 		}
 		b := make([]byte, it.size())
 		copy(b, rsdpSignature[:])
+		if it.NoSig < 0 || it.NoSig > 8 {
+			return nil, fmt.Errorf("item %d: signature byte %d", i, it.NoSig)
+		}
+		if it.NoSig != 0 {
+			b[it.NoSig-1] ^= 0x20 // the other letter case, or '\x00' for a space
+		}
 		oem := append(append([]byte(nil), it.OEM...), "      "...)[:6]
 		copy(b[9:15], oem)
 		b[15] = it.Rev
@@ -590,7 +597,7 @@ func c14Build(c *c14Case) (*c14Env, error) {
 		if bytes.Equal(w[s:s+8], rsdpSignature[:]) {
 			own := false
 			for _, it := range c.Items {
-				if it.Off == 0 && it.Slot*16 == s {
+				if it.Off == 0 && it.Slot*16 == s && it.NoSig == 0 {
 					own = true
 				}
 			}
@@ -885,7 +892,7 @@ func c14Found(e *c14Env, drv device.Driver) string {
 	case a > root && a <= root+uint64(c14RootAddrs*len(e.c.Items)) && (a-root)%c14RootAddrs == 0:
 		i := int((a-root)/c14RootAddrs) - 1
 		it := e.c.Items[i]
-		return fmt.Sprintf("the root address of item %d (slot %d+%d, revision %d, valid=%v), treated as %s", i, it.Slot, it.Off, it.Rev, it.Valid, kind)
+		return fmt.Sprintf("the root address of item %d (slot %d+%d, revision %d, checksums valid=%v, wrong signature byte=%d), treated as %s", i, it.Slot, it.Off, it.Rev, it.Valid, it.NoSig, kind)
 	}
 	for i, it := range e.c.Items {
 		if !it.Valid || it.Rev != 0 {
@@ -963,6 +970,10 @@ func c14Classify(c *c14Case, e *c14Env) (nontrivial bool, labels []string) {
 				continue
 			}
 			switch {
+			case o.NoSig != 0:
+				if o.Valid && o.Off == 0 && o.Slot < it.Slot {
+					add(fmt.Sprintf("wrong-signature-byte-%d-before", o.NoSig))
+				}
 			case o.Off != 0 && o.Valid:
 				add("misplaced-valid-copy")
 				if o.Slot < it.Slot {
@@ -1068,9 +1079,6 @@ func c14Classify(c *c14Case, e *c14Env) (nontrivial bool, labels []string) {
 			spill, multi, hdr := false, false, false
 			for i := range e.blobs {
 				b := &e.blobs[i]
-				if b == e.alt {
-					continue
-				}
 				if c14Spill(b.off, b.n) {
 					spill = true
 				}
@@ -1266,11 +1274,16 @@ func c14Gen(t *rapid.T, st *vlib.Stats) c14Case {
 		npre := rapid.SampledFrom([]int{0, 0, 1, 1, 1, 2, 3}).Draw(t, "npre")
 		for i := 0; i < npre; i++ {
 			var it c14Item
-			if rapid.IntRange(0, 3).Draw(t, "premisplaced") == 0 {
+			switch rapid.IntRange(0, 5).Draw(t, "prekind") {
+			case 4:
 				// a complete, checksum-valid structure that does not sit on a 16-byte boundary
 				it = c14GenItem(t, c14GenRev(t), true)
 				it.Off = rapid.SampledFrom([]int{8, 8, 8, 4, 12, 1, 15, 2}).Draw(t, "off")
-			} else {
+			case 5:
+				// a complete, checksum-valid structure on a boundary whose signature is off by one byte
+				it = c14GenItem(t, c14GenRev(t), true)
+				it.NoSig = rapid.SampledFrom([]int{8, 8, 1, 2, 3, 4, 5, 6, 7}).Draw(t, "nosig")
+			default:
 				it = c14GenItem(t, c14GenRev(t), false)
 			}
 			limit := nslots - need(it)
@@ -1389,7 +1402,7 @@ func c14Gen(t *rapid.T, st *vlib.Stats) c14Case {
 			a := &c14Table{Sig: sigs[ntab+1], Rev: 1}
 			c14GenBody(t, a, 0)
 			c14GenCorrupt(t, a)
-			a.Gap = c14GenGap(t, st, acur, a.length(), false)
+			a.Gap = c14GenGap(t, st, acur, a.length(), openC)
 			acur += a.Gap + a.length()
 			c.Alt = a
 		}
